@@ -32,6 +32,7 @@ type result struct {
 	Verified int      `json:"verified"`
 	Sent     int64    `json:"sent"`
 	Extra    int64    `json:"extra"`
+	Stuck    int      `json:"stuck"`
 	Errors   []string `json:"errors"`
 	Millis   int64    `json:"ms"`
 }
@@ -255,7 +256,15 @@ func run(name string, seed uint64) *result {
 	close(stop)
 	bg.Wait()
 	atomic.StoreInt32(&nw.stopped, 1)
-	nw.inflight.Wait()
+	// deliveries still inside HandleMessage after a grace period are stuck for good (a dispatcher goroutine that deadlocked)
+	idle := make(chan struct{})
+	go func() { nw.inflight.Wait(); close(idle) }()
+	select {
+	case <-idle:
+	case <-time.After(3 * time.Second):
+		res.Stuck = int(atomic.LoadInt64(&nw.active))
+		res.Errors = append(res.Errors, "deliveries still blocked inside HandleMessage 3 s after the end of the scenario")
+	}
 	res.Sent, res.Extra = atomic.LoadInt64(&nw.sent), atomic.LoadInt64(&nw.extra)
 	res.Millis = time.Since(t0).Milliseconds()
 	return res
